@@ -89,6 +89,8 @@ def candidates(p):
             q["stmt"]["obj"]["mutates"] = False
             yield q
         for key, val in (("noise", 0.0), ("ret", "float"), ("args", None)):
+            if key == "ret" and obj.get("ret") in ("arr1_reused", "arr0_reused"):
+                pass
             if obj.get(key) not in (val, None) or (key == "args" and obj.get("args") is not None):
                 q = copy.deepcopy(p)
                 q["stmt"]["obj"][key] = val
